@@ -119,6 +119,9 @@ func (d *solicitProtocol) IsEquivalent(other directive.Directive) bool {
 	if string(d.context) != string(od.SolicitProtocolContext()) {
 		return false
 	}
+	if d.transportID != od.SolicitProtocolTransportID() {
+		return false
+	}
 	return true
 }
 
